@@ -511,6 +511,7 @@ void h_main_filter(void)
   PROP(ended, "main() ends the process through _exit() or a signal");
 }
 
+static bool opts_refused;
 #ifdef OPTS_ONLY
 /* option-parsing query: signals.c is not linked; a fatal error ends the path at once */
 void setup_signals(void) {}
@@ -518,7 +519,8 @@ void cli(void) {}
 void sti(void) {}
 void halt(void) {}
 void xraise(int sig) { (void)sig; }
-void bailout(void) { WITNESS("options_refused"); CUT(); }
+static bool ref_conflict;   /* reference verdict of the case being run */
+void bailout(void) { opts_refused = true; WITNESS("options_refused"); PROP(ref_conflict, "options are refused only for the documented -c/-t conflict"); CUT(); }
 #endif
 
 /* ------------------------------------------------------------------ C22: invocation name, option sources, option parsing */
@@ -569,58 +571,75 @@ static void ref_apply(struct optstate *o, int e)
   else ref_apply1(o, e);
 }
 
-static bool opts_exited;
-struct opt_in { unsigned pname, ntok, tok[NTOK], envsel[3]; };
-
-void h_opts(void)
+/* One concrete case of the option query: environment selection e (0 = none, else variable (e-1)/NENV set to value
+   (e-1)%NENV), command-line tokens t0/t1 (NVOCAB = absent), invocation name pn.  The CALLER selects the case with a
+   symbolic condition, so all strings are concrete for symex while the choice of case stays with the solver. */
+static char env_copy[3][16];
+static void opts_case(unsigned pn, unsigned e, unsigned t0, unsigned t1)
 {
-  LOAD_INPUTS();
-  /* the option inputs are packed into otherwise unused input fields */
-  unsigned pn = IN.op[0].in_uid % 7u, ntok = IN.op[0].in_atime % (NTOK + 1u);
-  unsigned tk[NTOK], ev3[3], i;
   struct optstate R;
   struct arg *operands = 0;
-  char *argv[NTOK + 2];
-  env_val[0] = env_val[1] = env_val[2] = 0; sysk = 0;
-  { unsigned k; for (k = 0; k < NSYS; k++) ASSUME(IN.fail[k] >= 0 && IN.fail[k] < 200); }
-  filter_mode = true; H = 99;
-  ASSUME((IN.stdin_tty & 1) == 0 && (IN.stdout_tty & 1) == 0);
-  for (i = 0; i < NTOK; i++) { tk[i] = IN.fail[i] < 0 ? 0 : (unsigned)IN.fail[i]; ASSUME(tk[i] < NVOCAB); }
-  for (i = 0; i < 3; i++) { ev3[i] = (unsigned)IN.fail[NTOK + i]; ASSUME(ev3[i] <= NENV); env_val[i] = ev3[i] ? (char *)env_txt[ev3[i] - 1] : (char *)0; }
-#ifdef ONE_ENV                          /* at most one environment variable set (keeps the query small) */
-  ASSUME((ev3[0] != 0) + (ev3[1] != 0) + (ev3[2] != 0) <= 1);
-#endif
+  char *argv[4];
+  unsigned i, argc = 1, var = 0, val = 0;
+  env_val[0] = env_val[1] = env_val[2] = 0;
+  if (e) { var = (e - 1) / NENV; val = (e - 1) % NENV; memcpy(env_copy[var], env_txt[val], 16); env_val[var] = env_copy[var]; }
   argv[0] = (char *)pnames[pn];
-  for (i = 0; i < NTOK; i++) argv[1 + i] = (char *)vocab[tk[i]].text;
-  argv[1 + ntok] = 0;
+  if (t0 < NVOCAB) argv[argc++] = (char *)vocab[t0].text;
+  if (t0 < NVOCAB && t1 < NVOCAB) argv[argc++] = (char *)vocab[t1].text;
+  argv[argc] = 0;
 
   /* reference: documented rules */
   R.decompress = (pn == 2 || pn == 3 || pn == 4 || pn == 5); R.outmode = (pn == 4 || pn == 5) ? OM_STDOUT : OM_REGF;
   R.keep = R.force = R.ultra = R.conflict = false; R.level = 9;
-  for (i = 0; i < 3; i++) if (ev3[i]) { ref_apply(&R, env_eff[ev3[i] - 1][0]); if (env_eff[ev3[i] - 1][1]) ref_apply(&R, env_eff[ev3[i] - 1][1]); }
-  for (i = 0; i < NTOK; i++) if (i < ntok) ref_apply(&R, vocab[tk[i]].eff);
+  if (e) { ref_apply(&R, env_eff[val][0]); if (env_eff[val][1]) ref_apply(&R, env_eff[val][1]); }
+  for (i = 1; i < argc; i++) ref_apply(&R, vocab[i == 1 ? t0 : t1].eff);
   if (!R.conflict && R.outmode == OM_REGF) R.outmode = OM_STDOUT;        /* no FILE operands: filter */
 
   pname = argv[0];
   decompress = false; outmode = OM_REGF; bs100k = 9; keep = force = small = ultra = verbose = false; num_worker = 0;
-  opts_exited = false;
+  opts_refused = false; ref_conflict = R.conflict;
 #ifdef REPLAY
   if (!setjmp(cut_jmp))
 #endif
-  {
-    opts_setup(&operands, 1 + ntok, argv);
-    /* reached only when option processing did not end the process */
-    if (pn >= 2 && pn <= 5) WITNESS("decompressing_name");
-    if (ev3[0] && ev3[2]) WITNESS("two_environment_variables");
-    if (ntok == NTOK) WITNESS("all_tokens_used");
-    PROP(!R.conflict, "-c together with -t is refused");
-    PROP(operands == 0, "option tokens never become FILE operands");
-    PROP(decompress == R.decompress, "mode: invocation name, then -d/-z from environment and command line, last one wins (C22)");
-    PROP(outmode == R.outmode, "output destination follows the documented rules (C22)");
-    PROP(bs100k == R.level && keep == R.keep && force == R.force && ultra == R.ultra, "level/-k/-f/-u follow the documented rules (C22)");
-    PROP(num_worker == 4, "worker count defaults to the number of online processors");
-    return;
-  }
+  opts_setup(&operands, argc, argv);
+  if (opts_refused) return;             /* (replay build; CBMC paths end in bailout()) */
+  if (pn >= 2 && pn <= 5) WITNESS("decompressing_name");
+  if (e && argc == 3) WITNESS("environment_and_two_tokens");
+  if (e && val == 6) WITNESS("environment_value_with_double_separator");
+  PROP(!R.conflict, "-c together with -t is refused");
+  PROP(operands == 0, "option tokens (also from the environment) never become FILE operands");
+  PROP(decompress == R.decompress, "mode: invocation name, then -d/-z from environment and command line, last one wins (C22)");
+  PROP(outmode == R.outmode, "output destination follows the documented rules (C22)");
+  PROP(bs100k == R.level && keep == R.keep && force == R.force && ultra == R.ultra, "level/-k/-f/-u follow the documented rules (C22)");
+  PROP(num_worker == 4, "worker count defaults to the number of online processors");
+}
+
+#ifndef PN_MASK
+#define PN_MASK 0x7f           /* which invocation names the query ranges over (bit per entry of pnames[]) */
+#endif
+#ifndef USE_ENV
+#define USE_ENV 1
+#endif
+void h_opts(void)
+{
+  LOAD_INPUTS();
+  unsigned sel_pn = IN.op[0].in_uid, sel_e = IN.op[0].in_atime, sel_t0 = IN.op[0].in_mtime, sel_t1 = IN.op[0].in_mode, pn, e, t0, t1;
+  sysk = 0; filter_mode = true; H = 99;
+  { unsigned k; for (k = 0; k < NSYS; k++) ASSUME(IN.fail[k] == 0); }
+  ASSUME((IN.stdin_tty & 1) == 0 && (IN.stdout_tty & 1) == 0);
+  ASSUME(sel_pn < 7 && ((PN_MASK >> sel_pn) & 1) && sel_e <= (USE_ENV ? 3 * NENV : 0) && sel_t0 <= NVOCAB && sel_t1 <= NVOCAB);
+#if NTOK < 2
+  ASSUME(sel_t1 == NVOCAB);
+#endif
+#if NTOK < 1
+  ASSUME(sel_t0 == NVOCAB);
+#endif
+  /* every case runs with concrete strings; which case is taken is the solver's choice */
+  for (pn = 0; pn < 7; pn++) if ((PN_MASK >> pn) & 1)
+    for (e = 0; e <= (USE_ENV ? 3 * NENV : 0); e++)
+      for (t0 = (NTOK >= 1 ? 0 : NVOCAB); t0 <= NVOCAB; t0++)
+        for (t1 = (NTOK >= 2 ? 0 : NVOCAB); t1 <= NVOCAB; t1++)
+          if (sel_pn == pn && sel_e == e && sel_t0 == t0 && sel_t1 == t1) opts_case(pn, e, t0, t1);
 }
 
 void v_exit_opts_check(int code)
